@@ -19,21 +19,23 @@ What is NOT proved (carried only by the seed sweep of the harness): that the pri
 generation, signing, encryption are correct for a given seed; the serialisation of whole
 certificates (C05/C10); secret-key locking (C08).
 
-Three places where the code as it stands falls short of the property are kept visible as a
-`…_partial` theorem plus a witness of the negation:
-* `SecretKeyParamsBuilder::validate` tests `self.version == Some(V4)`: a builder left at its default
-  version builds a v4 key without any User ID, whose flags and preferences no self-signature carries
-  (`validate_v4_uid_hole`, `flags_lost_witness`);
-* `set_password_with_s2k` keeps the packet header of the unlocked packet, so a locked generated key
-  is not `==` to its own re-import (`locked_header_stale_witness`; defect D5c);
-* `ecdsa::SecretKey::try_from_mpi` relies on `elliptic_curve::SecretKey::from_slice`, which pads
-  only down to 24 octets: a scalar with more leading zero octets cannot be re-imported
-  (`ecdsa_scalar_short_witness`; probability 2⁻⁷² for P-256, never seen by the sweep).
-The secret-key path of `verify_bindings` not checking back-signatures (D15a) is modelled as coded
-(`public_implies_secret`, `secret_path_ignores_backsig_witness`); it does not affect generated keys.
-Also as coded: `generate` *panics* for key versions other than 2/3/4/6 (`unsupported_version_panics`),
-and an encryption-only algorithm is refused as primary only when the first signature is attempted
-(`GenErr.notSigningAlg`).
+State after the fixes 7538dec (D7c), 49ffb17 (D7a), 05de5d4 (D5c), ffb9bdd (D7b): the former
+`…_partial` theorems are now full statements —
+* `validate_v4_needs_uid`: the "V4 keys must have a primary User ID" rule holds for the *effective*
+  version, hence `flags_prefs_as_requested` needs no exclusion for validated v4/v6 builders;
+* `validate_rejects_unconstructible` / `validated_never_panics`: the versions on which
+  `PublicKey::from_inner` panics are refused by the builder;
+* `ecdsa_scalar_roundtrip`: ECDSA secrets are re-padded with `pad_key` like all other scalars;
+* `export_import_id`: after any history of locking / unlocking the stored packet header is truthful,
+  so a key is `==` to its re-import as far as the header is concerned.
+Regression theorems about clearly named pre-fix definitions are kept where cheap
+(`prefix_ecdsa_from_slice_short_witness`, `prefix_locked_header_stale_witness`,
+`prefix_secret_path_ignored_backsig_witness`).
+The secret-key path of `verify_bindings` now performs the same checks as the public one (D15a fixed:
+`secret_path_eq_public`; regression `prefix_secret_path_ignored_backsig_witness`).  Still as coded: v2/v3
+keys (outside the property's quantifier) may be built without any User ID
+(`flags_lost_without_uid_witness` shows why the v4 rule matters); an encryption-only algorithm is
+refused as primary only when the first signature is attempted (`GenErr.notSigningAlg`).
 -/
 namespace Rpgp.C07
 open Rpgp Rpgp.KeyGen
@@ -62,12 +64,15 @@ theorem key_flag_bits_rfc :
     Gen.kfCertifyBit = 0 ∧ Gen.kfSignBit = 1 ∧ Gen.kfEncryptCommsBit = 2 ∧ Gen.kfEncryptStorageBit = 3 ∧
     Gen.kfAuthenticationBit = 5 := by decide
 
-/-- the scalar sizes used for re-padding: both tables in the source agree and are the curve sizes -/
+/-- the scalar sizes used for re-padding: both tables in the source agree and are the curve sizes,
+and `ecdsa.rs try_from_mpi` pads each curve's secret to exactly that size -/
 theorem scalar_sizes :
     Gen.secretLenP256 = 32 ∧ Gen.secretLenP384 = 48 ∧ Gen.secretLenP521 = 66 ∧ Gen.secretLenSecp256k1 = 32 ∧
     Gen.secretLenEd25519Legacy = 32 ∧ Gen.secretLenCurve25519Legacy = 32 ∧ Gen.c25519PadLen = Gen.secretLenCurve25519Legacy ∧
     Gen.ecdsaSecretLenP256 = Gen.secretLenP256 ∧ Gen.ecdsaSecretLenP384 = Gen.secretLenP384 ∧
-    Gen.ecdsaSecretLenP521 = Gen.secretLenP521 ∧ Gen.ecdsaSecretLenSecp256k1 = Gen.secretLenSecp256k1 := by decide
+    Gen.ecdsaSecretLenP521 = Gen.secretLenP521 ∧ Gen.ecdsaSecretLenSecp256k1 = Gen.secretLenSecp256k1 ∧
+    Gen.ecdsaPadLenP256 = Gen.ecdsaSecretLenP256 ∧ Gen.ecdsaPadLenP384 = Gen.ecdsaSecretLenP384 ∧
+    Gen.ecdsaPadLenP521 = Gen.ecdsaSecretLenP521 ∧ Gen.ecdsaPadLenSecp256k1 = Gen.ecdsaSecretLenSecp256k1 := by decide
 
 /-- native points: writer and reader sites agree on prefix 0x40 and length 33; the EdDSA legacy
 signature is rebuilt as 2 × 32 octets from halves shorter than 33 -/
@@ -128,48 +133,87 @@ theorem validate_versions_iff (v : Option Nat) (subs : List SubParams) :
 
 /-- what a successful `build()` guarantees (soundness of `validate`) -/
 theorem validate_sound (b : Builder) (h : validate b = .ok ()) :
+    unconstructible b.effVersion = false ∧ (∀ s ∈ b.subkeys, unconstructible s.version = false) ∧
     validateVersions b.version b.subkeys = .ok () ∧
     validateKeytype b.keyType b.canSign (b.canEncrypt.getD .none) b.canAuth = .ok () ∧
     (∀ s ∈ b.subkeys, validateKeytype (some s.keyType) (some s.canSign) s.canEncrypt (some s.canAuth) = .ok ()) ∧
-    (b.version = some 4 → b.primaryUid ≠ none) := by
+    (b.effVersion = 4 → b.primaryUid ≠ none) := by
   unfold validate at h
-  split at h
-  · cases h
-  · rename_i h1
-    split at h
-    · cases h
-    · rename_i h2
+  by_cases hu : unconstructible b.effVersion = true
+  · simp [hu] at h
+  · by_cases hsu : (b.subkeys.any fun s => unconstructible s.version) = true
+    · simp [hu, hsu] at h
+    · rw [if_neg hu, if_neg hsu] at h
+      have hsu' : ∀ s ∈ b.subkeys, unconstructible s.version = false := by
+        intro s hs
+        cases hc : unconstructible s.version with
+        | false => rfl
+        | true => exact absurd (List.any_eq_true.mpr ⟨s, hs, hc⟩) hsu
       split at h
       · cases h
-      · rename_i h3
-        refine ⟨h1, h2, ?_, ?_⟩
-        · clear h h1 h2
-          generalize b.subkeys = l at h3
-          induction l with
-          | nil => intro s hs; cases hs
-          | cons a r ih =>
-            intro s hs
-            simp only [validateSubs] at h3
-            split at h3
-            · cases h3
-            · rename_i ha
-              rcases List.mem_cons.mp hs with rfl | hs'
-              · exact ha
-              · exact ih h3 s hs'
-        · intro hv hu
-          simp [hv, hu] at h
+      · rename_i h1
+        split at h
+        · cases h
+        · rename_i h2
+          split at h
+          · cases h
+          · rename_i h3
+            refine ⟨by simpa using hu, hsu', h1, h2, ?_, ?_⟩
+            · clear h h1 h2
+              generalize b.subkeys = l at h3
+              induction l with
+              | nil => intro s hs; cases hs
+              | cons a r ih =>
+                intro s hs
+                simp only [validateSubs] at h3
+                split at h3
+                · cases h3
+                · rename_i ha
+                  rcases List.mem_cons.mp hs with rfl | hs'
+                  · exact ha
+                  · exact ih h3 s hs'
+            · intro hv hu'
+              simp [hv, hu'] at h
 
-/-- FULL STATEMENT (violated by the code as it stands):
-    `∀ b, validate b = .ok () → b.effVersion = 4 → b.primaryUid ≠ none`
-"V4 keys must have a primary User ID".  The code tests the *builder field* for `Some(V4)`, so only an
-explicitly chosen version is covered: -/
-theorem validate_v4_needs_uid_partial (b : Builder) (h : validate b = .ok ()) (hv : b.version = some 4) :
-    b.primaryUid ≠ none := (validate_sound b h).2.2.2 hv
+/-- "V4 keys must have a primary User ID" — for the version the key will actually have, whether it
+was chosen explicitly or left at the builder's default (full statement; before fix 49ffb17 only
+`b.version = some 4` was covered) -/
+theorem validate_v4_needs_uid (b : Builder) (h : validate b = .ok ()) (hv : b.effVersion = 4) :
+    b.primaryUid ≠ none := (validate_sound b h).2.2.2.2.2 hv
 
-/-- witness of the negation: the default builder (version never set ⇒ v4) passes without any User ID -/
-theorem validate_v4_uid_hole :
-    ∃ b : Builder, validate b = .ok () ∧ b.effVersion = 4 ∧ b.primaryUid = none ∧ b.uids = [] :=
-  ⟨{ keyType := some .ed25519, canSign := some true, canCertify := some true }, by rfl, rfl, rfl, rfl⟩
+/-- the default builder (version never set ⇒ v4) without a User ID is refused -/
+theorem validate_default_version_needs_uid :
+    validate { keyType := some .ed25519, canSign := some true, canCertify := some true } = .error .v4NeedsUid ∧
+    validate { keyType := some .ed25519, canSign := some true, canCertify := some true, primaryUid := some [65] } = .ok () :=
+  ⟨by rfl, by rfl⟩
+
+/-- versions for which a key packet cannot be constructed (V5, Other) are refused for the primary
+and for every subkey … -/
+theorem validate_rejects_unconstructible (b : Builder) (h : validate b = .ok ()) :
+    (b.effVersion = 2 ∨ b.effVersion = 3 ∨ b.effVersion = 4 ∨ b.effVersion = 6) ∧
+    (∀ s ∈ b.subkeys, s.version = 2 ∨ s.version = 3 ∨ s.version = 4 ∨ s.version = 6) := by
+  obtain ⟨h1, h2, _⟩ := validate_sound b h
+  have key : ∀ v, unconstructible v = false → v = 2 ∨ v = 3 ∨ v = 4 ∨ v = 6 := by
+    intro v hv
+    simp only [unconstructible, Bool.not_eq_false', Bool.or_eq_true, beq_iff_eq] at hv
+    omega
+  exact ⟨key _ h1, fun s hs => key _ (h2 s hs)⟩
+
+/-- … hence `generate` on a validated builder never reaches the `panic!` in
+`PubKeyInner::write_len` (neither for the primary nor for a subkey) -/
+theorem validated_never_panics (b : Builder) (h : validate b = .ok ()) (kt : KeyType) :
+    pubKeyNewCheck b.effVersion kt ≠ .error .panicKeyVersion ∧
+    (∀ s ∈ b.subkeys, pubKeyNewCheck s.version s.keyType ≠ .error .panicKeyVersion) := by
+  obtain ⟨hp, hs⟩ := validate_rejects_unconstructible b h
+  have key : ∀ v k, (v = 2 ∨ v = 3 ∨ v = 4 ∨ v = 6) → pubKeyNewCheck v k ≠ .error .panicKeyVersion := by
+    intro v k hv
+    unfold pubKeyNewCheck
+    split
+    · simp
+    · split
+      · simp
+      · simp [hv]
+  exact ⟨key _ _ hp, fun s hs' => key _ _ (hs s hs')⟩
 
 /-- a version/algorithm mix the builder lets through and `generate` then refuses (after having
 generated the key material): v6 with the legacy Ed25519 / Curve25519 encodings -/
@@ -243,35 +287,34 @@ theorem mpi_roundtrip (raw rest : Bytes) (h : raw.length ≤ 2048) :
     mpiRead (mpiWrite (mpiFromSlice raw) ++ rest) = some (mpiFromSlice raw, rest) :=
   mpiRead_mpiWrite_normalized _ rest (stripZeros_normalized raw) (Nat.le_trans (stripZeros_length_le raw) h)
 
-/-- the whole path of a fixed-size secret scalar (ECDH NIST curves, Ed25519Legacy):
-raw → `Mpi::from_slice` → wire → `try_from_reader` → `pad_key::<n>` gives back raw, for every value -/
+/-- the whole path of a fixed-size secret scalar (ECDH and ECDSA NIST curves / secp256k1,
+Ed25519Legacy): raw → `Mpi::from_slice` → wire → `try_from_reader` → `pad_key::<n>` gives back raw,
+for every value -/
 theorem scalar_roundtrip (n : Nat) (x rest : Bytes) (h : x.length = n) (hn : n ≤ 2048) :
     (mpiRead (mpiWrite (mpiFromSlice x) ++ rest)).bind (fun vr => (padKey n vr.1).map (fun k => (k, vr.2)))
       = some (x, rest) := by
   rw [mpi_roundtrip x rest (by omega)]
   simp [mpiFromSlice, padKey_stripZeros n x h]
 
-/-- FULL STATEMENT (violated by the code as it stands for ECDSA secrets):
-    `x.length = n → ecFromSlice n (stripZeros x) = some x`.
-`ecdsa::SecretKey::try_from_mpi` does not use `pad_key` but `SecretKey::from_slice`, which pads only
-strings of at least 24 octets: -/
-theorem ecdsa_scalar_roundtrip_partial (n : Nat) (x : Bytes) (h : x.length = n)
-    (hguard : ecMinSize ≤ (stripZeros x).length) : ecFromSlice n (stripZeros x) = some x := by
-  have hle := stripZeros_length_le x
-  subst h
-  unfold ecFromSlice
-  by_cases he : (stripZeros x).length = x.length
-  · have := replicate_stripZeros x
-    simp only [he, Nat.sub_self, List.replicate_zero, List.nil_append] at this
-    simp [this]
-  · have hlt : (stripZeros x).length < x.length := by omega
-    simp [he, hguard, hlt, replicate_stripZeros]
+/-- **ECDSA secrets** (full statement; before fix ffb9bdd only scalars with at most n − 24 leading
+zero octets came back): at each of the four scalar sizes `ecdsa::SecretKey` knows, every scalar —
+whatever its number of leading zero octets — survives write and re-import -/
+theorem ecdsa_scalar_roundtrip (n : Nat) (x rest : Bytes) (h : x.length = n)
+    (hn : n = Gen.ecdsaSecretLenP256 ∨ n = Gen.ecdsaSecretLenP384 ∨ n = Gen.ecdsaSecretLenP521 ∨
+          n = Gen.ecdsaSecretLenSecp256k1) :
+    padKey n (stripZeros x) = some x ∧
+    (mpiRead (mpiWrite (mpiFromSlice x) ++ rest)).bind (fun vr => (padKey n vr.1).map (fun k => (k, vr.2)))
+      = some (x, rest) := by
+  refine ⟨padKey_stripZeros n x h, scalar_roundtrip n x rest h ?_⟩
+  simp only [Gen.ecdsaSecretLenP256, Gen.ecdsaSecretLenP384, Gen.ecdsaSecretLenP521, Gen.ecdsaSecretLenSecp256k1] at hn
+  omega
 
-/-- witness of the negation: a P-256 scalar with nine leading zero octets is written as a 23-octet
-MPI and refused on import -/
-theorem ecdsa_scalar_short_witness :
+/-- REGRESSION (pre-fix definition `ecFromSlicePreFix` = `SecretKey::from_slice`): a P-256 scalar with
+nine leading zero octets is written as a 23-octet MPI, which the old import path refused and
+`pad_key` restores -/
+theorem prefix_ecdsa_from_slice_short_witness :
     let x : Bytes := List.replicate 9 0 ++ List.replicate 23 1
-    x.length = 32 ∧ ecFromSlice 32 (stripZeros x) = none ∧ padKey 32 (stripZeros x) = some x := by decide
+    x.length = 32 ∧ ecFromSlicePreFix 32 (stripZeros x) = none ∧ padKey 32 (stripZeros x) = some x := by decide
 
 /-! ## EdDSA legacy signatures, native points, Curve25519 secrets -/
 
@@ -385,19 +428,19 @@ theorem to_public_drops_unsigned_subkey_witness :
 signature is the signer's number) satisfies the law -/
 theorem toy_law : SignLaw toyPrims := by intro s m; simp [toyPrims]
 
-/-- the public check implies the secret check (the secret path checks strictly less) -/
-theorem public_implies_secret {K U Sg B : Type} (C : SigChecks K U Sg B) (key sub : K) (sigs : List Sg)
-    (h : verifySubPublic C key sub sigs = true) : verifySubSecret C key sub sigs = true := by
-  simp only [verifySubPublic, verifySubSecret, Bool.and_eq_true, List.all_eq_true] at *
-  exact ⟨h.1, fun s hs => (h.2 s hs).1⟩
+/-- the secret form and the public form of a subkey are checked in exactly the same way (since the
+fix of D15a), in particular a signing subkey needs its back-signature on both paths -/
+theorem secret_path_eq_public {K U Sg B : Type} (C : SigChecks K U Sg B) (key sub : K) (sigs : List Sg) :
+    verifySubSecret C key sub sigs = verifySubPublic C key sub sigs := rfl
 
-/-- … strictly: a binding whose flags say "sign" but which carries no back-signature passes the
-secret path and fails the public one (D15a, as coded) -/
-theorem secret_path_ignores_backsig_witness :
+/-- REGRESSION (pre-fix definition `verifySubSecretPreFix`): the old secret path checked strictly
+less — a binding whose flags say "sign" but which carries no back-signature passed it -/
+theorem prefix_secret_path_ignored_backsig_witness :
     let C : SigChecks Unit Unit Unit Unit :=
       { vCert := fun _ _ _ => true, vKey := fun _ _ => true, vSub := fun _ _ _ => true, vBack := fun _ _ _ => true,
         flagsSign := fun _ => true, embedded := fun _ => none }
-    verifySubSecret C () () [()] = true ∧ verifySubPublic C () () [()] = false := by decide
+    verifySubSecretPreFix C () () [()] = true ∧ verifySubSecret C () () [()] = false ∧
+    verifySubPublic C () () [()] = false := by decide
 
 /-- components without any signature are refused on both paths -/
 theorem unsigned_components_rejected {K U Sg B : Type} (C : SigChecks K U Sg B) (key sub : K) (id : U) :
@@ -422,11 +465,11 @@ theorem backsig_iff_can_sign {M S σ : Type} (P : KeyPrims M S σ) (law : SignLa
     have := congrArg (List.map (fun (t : Flags × Bool × Nat × KeyType) => ([(some t.1, t.2.1)], t.2.2.1, t.2.2.2))) hpar
     simpa [List.map_map, Function.comp_def] using this
 
-/-- FULL STATEMENT (violated by the code as it stands):
-    `generate P p r = .ok c → (metadataSig c).bind hashedFlags = some p.flags ∧ … = some p.prefs`.
-For a v6 key the direct key signature carries flags, features and preferences; for other versions a
-User ID certification does — so there must be a User ID: -/
-theorem flags_prefs_as_requested_partial {M S σ : Type} (P : KeyPrims M S σ) (p : GenParams) (r : GenRand S)
+/-- `generate` on its own (any parameter set, validated or not): for a v6 key the direct key
+signature carries flags, features and preferences; for other versions a User ID certification
+does — so there must be a User ID.  `validate` supplies that hypothesis
+(`flags_prefs_as_requested`). -/
+theorem flags_prefs_read_back {M S σ : Type} (P : KeyPrims M S σ) (p : GenParams) (r : GenRand S)
     (c : Cert M σ) (h : generate P p r = .ok c)
     (hguard : p.version = 6 ∨ p.primaryUid ≠ none ∨ p.uids ≠ []) :
     (metadataSig c).bind hashedFlags = some p.flags ∧ (metadataSig c).map hashedPrefs = some p.prefs := by
@@ -468,9 +511,28 @@ theorem flags_prefs_as_requested_partial {M S σ : Type} (P : KeyPrims M S σ) (
           simp only [certifyUids, List.head?_cons]
           exact hread
 
-/-- witness of the negation: a v4 key without User IDs is generated, verifies (vacuously), and
-carries its flags and preferences nowhere -/
-theorem flags_lost_witness :
+/-- **flags_as_requested / prefs_as_requested** (full statement; before fix 49ffb17 the default-version
+builder had to be excluded).  For every builder that `validate` accepts and whose key will be v4 or
+v6 — the versions the property quantifies over — whatever the algorithms, capabilities, user ids,
+preferences and seed material: if `generate` returns a certificate, the key flags, features and
+preferences read back from its metadata self-signature are exactly the requested ones. -/
+theorem flags_prefs_as_requested {M S σ : Type} (P : KeyPrims M S σ) (b : Builder) (kt : KeyType) (prefs : Prefs)
+    (created subCreated : Nat) (r : GenRand S) (c : Cert M σ)
+    (hval : validate b = .ok ()) (hv : b.effVersion = 4 ∨ b.effVersion = 6)
+    (h : generate P (b.toParams kt prefs created subCreated) r = .ok c) :
+    (metadataSig c).bind hashedFlags = some (b.toParams kt prefs created subCreated).flags ∧
+    (metadataSig c).map hashedPrefs = some prefs := by
+  have hg : (b.toParams kt prefs created subCreated).version = 6 ∨
+      (b.toParams kt prefs created subCreated).primaryUid ≠ none ∨ (b.toParams kt prefs created subCreated).uids ≠ [] := by
+    rcases hv with h4 | h6
+    · exact Or.inr (Or.inl (validate_v4_needs_uid b hval h4))
+    · exact Or.inl h6
+  exact flags_prefs_read_back P _ r c h hg
+
+/-- why the v4 rule matters (about `generate` alone, on parameters no validated v4/v6 builder
+produces): a v4 key without User IDs would be generated, verify (vacuously), and carry its flags
+and preferences nowhere -/
+theorem flags_lost_without_uid_witness :
     let p : GenParams := { version := 4, keyType := .ed25519, flags := { certify := true, sign := true },
                            prefs := { sym := [9] }, created := 0, primaryUid := none, uids := [], subkeys := [] }
     let r : GenRand Nat := { primarySec := 7, subSecs := [], salt := fun _ => [], now := 1 }
@@ -502,8 +564,9 @@ theorem signing_binding_needs_backsig {K U Sg B : Type} (C : SigChecks K U Sg B)
     (hf : C.flagsSign s = true) (he : C.embedded s = none) : verifySubPublic C key sub (s :: rest) = false := by
   simp [verifySubPublic, hf, he]
 
-/-- key versions other than 2, 3, 4, 6 are not refused with an error: `PublicKey::from_inner` calls
-`write_len()`, which panics ("V5 keys") — as coded -/
+/-- `generate` itself still does not refuse key versions other than 2, 3, 4, 6 with an error:
+`PublicKey::from_inner` calls `write_len()`, which panics ("V5 keys") — unreachable through the
+builder since fix 7538dec (`validated_never_panics`) -/
 theorem unsupported_version_panics (kt : KeyType) (hk : kt ≠ .ecdh .curve25519Legacy ∧ kt ≠ .ed25519Legacy) :
     pubKeyNewCheck 5 kt = .error .panicKeyVersion ∧ pubKeyNewCheck 7 kt = .error .panicKeyVersion := by
   simp [pubKeyNewCheck, hk.1, hk.2]
@@ -586,24 +649,37 @@ theorem generate_total {M S σ : Type} (P : KeyPrims M S σ) (law : SignLaw P) (
   have := generate_verifies P law p r c hc
   exact ⟨c, hc, this.1, this.2, hcl⟩
 
-/-! ## packet header of a locked generated key (D5c) -/
+/-! ## packet header of a (locked) generated key -/
 
-/-- FULL STATEMENT (violated by the code as it stands): `reimportPkt k = k` for every key packet
-`generate` returns.  It holds exactly when the stored header is truthful: -/
-theorem export_import_id_partial (k : KeyPkt) : reimportPkt k = k ↔ k.hdrLen = k.bodyLen := by
+/-- a key packet is `==` to its re-import, as far as the header goes, exactly when the stored
+header is truthful -/
+theorem reimport_id_iff (k : KeyPkt) : reimportPkt k = k ↔ k.hdrLen = k.bodyLen := by
   cases k; simp [reimportPkt]; exact eq_comm
 
-/-- unlocked generated packets are in that case … -/
-theorem unlocked_header_truthful (n : Nat) : reimportPkt (newPkt n) = newPkt n := rfl
+/-- **export_import_id** (full statement; before fix 05de5d4 it failed for every locked key): a
+packet made by `SecretKey::new` and then locked / unlocked any number of times — `generate` locks
+at most once — is equal to its re-import -/
+theorem export_import_id (n : Nat) (ops : List PktOp) :
+    reimportPkt (applyOps (newPkt n) ops) = applyOps (newPkt n) ops := by
+  have key : ∀ (ops : List PktOp) (k : KeyPkt), k.hdrLen = k.bodyLen → (applyOps k ops).hdrLen = (applyOps k ops).bodyLen := by
+    intro ops
+    induction ops with
+    | nil => intro k hk; exact hk
+    | cons o r ih => intro k _; cases o <;> exact ih _ rfl
+  exact (reimport_id_iff _).mpr (key ops (newPkt n) rfl)
 
-/-- … locked ones never are: locking changes the body and keeps the header, so the key differs
-from its own re-import (in the header only: the bytes written are the same) -/
-theorem locked_header_stale_witness (n g : Nat) (hg : 0 < g) :
-    reimportPkt (lockPkt (newPkt n) g) ≠ lockPkt (newPkt n) g ∧
-    (reimportPkt (lockPkt (newPkt n) g)).bodyLen = (lockPkt (newPkt n) g).bodyLen ∧
-    reimportPkt (reimportPkt (lockPkt (newPkt n) g)) = reimportPkt (lockPkt (newPkt n) g) := by
-  refine ⟨?_, rfl, rfl⟩
-  simp [reimportPkt, lockPkt, newPkt]; omega
+/-- the two shapes `generate` produces: unlocked, and locked once -/
+theorem generated_packets_reimport (n g : Nat) :
+    reimportPkt (newPkt n) = newPkt n ∧ reimportPkt (lockPkt (newPkt n) g) = lockPkt (newPkt n) g :=
+  ⟨rfl, rfl⟩
+
+/-- REGRESSION (pre-fix definition `lockPktPreFix`): locking that kept the header made the key differ
+from its own re-import — in the header only -/
+theorem prefix_locked_header_stale_witness (n g : Nat) (hg : 0 < g) :
+    reimportPkt (lockPktPreFix (newPkt n) g) ≠ lockPktPreFix (newPkt n) g ∧
+    (reimportPkt (lockPktPreFix (newPkt n) g)).bodyLen = (lockPktPreFix (newPkt n) g).bodyLen := by
+  refine ⟨?_, rfl⟩
+  simp [reimportPkt, lockPktPreFix, newPkt]; omega
 
 /-! ## non-vacuity / concrete evaluations -/
 
